@@ -1371,3 +1371,50 @@ def unit_is_parameter_encryption(n):
             return ("return", r)
         u.add_paths(explore(run0), "WALK/is_parameter_encryption/no-area")
     return u
+
+
+def unit_path():
+    """contract of the path helpers every walker relies on (they run natively inside the units, and expected paths are
+    built with them too, so their own behaviour is pinned here independently): `/` appends one node, slicing and [-1]
+    select, with_index sets the index, text form joins the nodes with '.', from_string('.') is the root path"""
+    from tpmstream.common.path import Path, PathNode, ROOT_PATH, PATH_NODE_ROOT_NAME
+    from tpmstream.common.util import is_list
+    from tpmstream.spec.structures.base_types import BYTE
+
+    u = UnitResult("WALK/path-helpers")
+    u.functions = ["tpmstream.common.path:Path", "tpmstream.common.path:PathNode", "tpmstream.common.util:is_list"]
+
+    def ob(name, ok, detail=""):
+        u.obligations.append({"name": f"WALK/path-helpers/{name}", "kind": "post", "site": "common/path.py", "status": "proved" if ok else "refuted", "backend": "evaluation", "seconds": 0, "model": None, "detail": detail})
+
+    def key(p):
+        return tuple((n.name, n.index) for n in tuple.__iter__(p))
+
+    bad = []
+    for depth in range(1, 10):
+        nodes = [("", None)] + [(f"n{i}", (i if i % 2 else None)) for i in range(1, depth)]
+        p = Path(PathNode(n, i) for n, i in nodes)
+        if key(p) != tuple(nodes) or len(p) != depth or not isinstance(p, Path):
+            bad.append(f"construct depth {depth}: {key(p)}")
+        q = p / PathNode("child")
+        if key(q) != tuple(nodes) + (("child", None),) or not isinstance(q, Path) or key(p) != tuple(nodes):
+            bad.append(f"append at depth {depth}: {key(q)}")
+        q2 = p + PathNode("c2")
+        if key(q2) != tuple(nodes) + (("c2", None),):
+            bad.append(f"+ at depth {depth}")
+        if key(q[:-1]) != tuple(nodes) or not isinstance(q[:-1], Path) or (q[-1].name, q[-1].index) != ("child", None):
+            bad.append(f"slice at depth {depth}")
+        w = q[-1].with_index(7)
+        if (w.name, w.index) != ("child", 7) or q[-1].index is not None:
+            bad.append(f"with_index at depth {depth}")
+        text = ".".join(n if i is None else f"{n}[{i}]" for n, i in nodes)
+        if str(p) != text or repr(p) != text:
+            bad.append(f"text at depth {depth}: {str(p)!r} expected {text!r}")
+        if (p == Path(PathNode(n, i) for n, i in nodes)) is not True or (p == q) is not False:
+            bad.append(f"equality at depth {depth}")
+    ob("append-slice-index-text-equality", not bad, "; ".join(bad[:3]))
+    r = Path(PathNode(PATH_NODE_ROOT_NAME))
+    ob("root-path", key(r) == (("", None),) and r == ROOT_PATH and Path.from_string(".") == r and key(Path.from_string(".")) == (("", None),) and str(r) == "", f"{key(Path.from_string('.'))}")
+    ob("from-string", key(Path.from_string(".a.b")) == (("", None), ("a", None), ("b", None)), str(key(Path.from_string(".a.b"))))
+    ob("is_list", is_list(list[BYTE]) is True and is_list(list) is True and is_list(BYTE) is False and is_list(dict) is False and is_list(None) is False)
+    return u
